@@ -28,6 +28,10 @@ WITNESS = {
     # fails and the deferred re-acquisition must still succeed, or the application's TRUNCATE checkpoint destroys uncopied frames
     "Q2": [["LsOpen", "new"], ["AppWrite", 1], ["LsSyncAndWait"], ["CkStart", "PASSIVE"], ["CkStep"], ["CkStep"], ["CkCancel"], ["CkStep"],
            ["LsSyncAndWait"], ["AppWrite", 2], ["AppCheckpoint", "TRUNCATE"], ["AppWrite", 3], ["LsSyncAndWait"], ["LsClose"]],
+    # S2 (known finding): the newest local level-0 files vanish while litestream runs, level-0 retention invalidates the cached position
+    "S2": [["LsOpen", "new"], ["AppWrite", 1], ["LsSyncAndWait"], ["AppWrite", 2], ["LsSyncAndWait"], ["AppWrite", 3], ["LsSyncAndWait"], ["Compact", 1],
+           ["AppWrite", 4], ["LsSyncAndWait"], ["AppWrite", 5], ["LsSyncAndWait"], ["AppWrite", 6], ["LsSync"], ["LocalLoss", "newest"], ["LocalLoss", "newest"],
+           ["L0Retention", 9], ["AppWrite", 1], ["LsSyncAndWait"], ["AppWrite", 2], ["LsSyncAndWait"], ["LsClose"]],
     "F3": [["LsOpen", "new"]] + [["AppGrow", 1], ["LsSyncAndWait"]] * 5 + [["LsReset"], ["AppWrite", 3], ["LsSyncAndWait"]],
 }
 
@@ -52,7 +56,7 @@ PLANS = {
         random=dict(n=200, n_thorough=1200, length=34, with_down=True, with_state_loss=True),
         directed=True,
         invariants=["C04_AckMeansReplicaAtLocalPos", "C04_ResnapshotAfterLoss", "C01_RestoreEqualsSource", "N_ReadLockWhileOpen"],
-        witnesses=["F1", "F2", "F3", "S1", "Q1", "Q2"],
+        witnesses=["F1", "F2", "F3", "S1", "Q1", "Q2", "S2"],
         nontrivial="distinct schedule in which litestream was stopped/reset/lost state and application activity happened before the next acknowledgement",
     ),
     "C02": dict(
